@@ -1,5 +1,5 @@
 #!/venv/bin/python
-"""C19 (TXT half), finding `C19:txt-str-with-lone-surrogate` -- standalone reproduction on the unchanged library.
+"""D33 -- C19 (TXT half), finding `C19:txt-str-with-lone-surrogate` -- standalone reproduction on the unchanged library.
 
 A `str` key or value that holds a lone surrogate (a Python str that is not Unicode text) makes
 `ServiceInfo(..., properties=...)` raise UnicodeEncodeError out of `_set_properties` (info.py:375 / :381,
